@@ -108,7 +108,7 @@ structure OK (g : Cfg) : Prop where
   wf : WellFormedPreamble g.p g.recs
   pairs : ∀ q ∈ g.p.pairs, (NV.enc q).length ≤ alignedBufsize g.b
   noise : NoiseFits (alignedBufsize g.b) g.recs
-  /-- the role; includes a bound for the model fuel: `handlerPoll` gets `1000 + 4·|input|` units per poll -/
+  /-- the role; includes a bound for the model fuel: `handlerPoll` gets at least `1000 + 4·|input|` units per poll (plus `4·cap`, not used here) -/
   shape : g.Shape
 end Cfg
 
@@ -752,7 +752,7 @@ theorem close_start_eq {g : Cfg} {r : AReq} {t : Transport} (he : REnd g.N r t.i
 
 /-! ## The handler phase -/
 
-theorem handlerFuel_ge (e : Run.Env) : 1000 + 4 * e.tr.input.length ≤ handlerFuel e := by
+theorem handlerFuel_ge (e : Run.Env) (r : AReq) : 1000 + 4 * e.tr.input.length ≤ handlerFuel e r := by
   unfold handlerFuel; omega
 
 theorem HOut.mono {W : WCtx} {Rd Rd' : AReq → HState → Run.Env → Prop} {e : Run.Env}
@@ -790,11 +790,11 @@ theorem rd_poll {g : Cfg} (ok : g.OK) {r : AReq} {h : HState} {e : Run.Env} (hr 
 
 /-- One poll that starts inside the handler (given what this poll of the handler returns). -/
 theorem handler_core {g : Cfg} (ok : g.OK) {c : Conn} {r : AReq} {h : HState} (hph : c.phase = .handler r h)
-    (hout : HOut g.Wc g.Rd c.env (handlerPoll (handlerFuel c.env) r h c.env))
+    (hout : HOut g.Wc g.Rd c.env (handlerPoll (handlerFuel c.env r) r h c.env))
     (hb : Ben c.env.tr) (hstop : c.stop = false) (hev : Ev1 g c.env.tr) (hsc : c.scripts = g.more) :
     Res g (2 * c.env.tr.input.length + 10) c := by
   have hstep := C07.handler_step c r h hph
-  rcases hhp : handlerPoll (handlerFuel c.env) r h c.env with ⟨r', h', e', res⟩
+  rcases hhp : handlerPoll (handlerFuel c.env r) r h c.env with ⟨r', h', e', res⟩
   rw [hhp] at hstep hout
   obtain ⟨hts, hsegs, hres⟩ := hout
   simp only at hts hsegs hres
@@ -946,9 +946,9 @@ theorem parse_poll {g : Cfg} (ok : g.OK) {c : Conn} {F : Bytes}
         simp
     have hben2 : Ben (t'.ev (hsEvent g.p.request)) := hben1.wstep hwsE
     have hfuelH : 1000 + 4 * t'.input.length ≤
-        handlerFuel ((⟨t', c1.env.mutex, c1.env.segs⟩ : Run.Env).ev (hsEvent g.p.request)) := by
-      show 1000 + 4 * t'.input.length ≤ 1000 + t'.input.length * 4 + _
-      omega
+        handlerFuel ((⟨t', c1.env.mutex, c1.env.segs⟩ : Run.Env).ev (hsEvent g.p.request))
+          (AReq.new (Str.Parser.fromParser g.cap g.p.request e1 g.mc)) :=
+      handlerFuel_ge ((⟨t', c1.env.mutex, c1.env.segs⟩ : Run.Env).ev (hsEvent g.p.request)) _
     have hcore := handler_core ok
       (c := ⟨.handler (AReq.new (Str.Parser.fromParser g.cap g.p.request e1 g.mc))
               { ops := g.hscript, propagate := true },
